@@ -7,6 +7,7 @@ import (
 	"github.com/aperturerobotics/bifrost/peer"
 	"github.com/aperturerobotics/bifrost/protocol"
 	"github.com/aperturerobotics/controllerbus/directive"
+	"github.com/sirupsen/logrus"
 	rt "github.com/aperturerobotics/bifrost/zz_verifrt"
 )
 
@@ -40,7 +41,7 @@ func c34Stream() (link.HandleMountedStream, string, peer.ID, peer.ID) {
 // VerifC34Pubsub: the pubsub controller takes only streams of its protocol.
 func VerifC34Pubsub() {
 	cfgPid := rt.String("cfgProtocol", 0, 2)
-	c := &Controller{protocolID: protocol.ID(cfgPid)}
+	c := &Controller{le: logrus.NewEntry(logrus.New()), protocolID: protocol.ID(cfgPid)}
 	d, pid, _, _ := c34Stream()
 	res, err := c.handleMountedStream(context.Background(), c34DI{d: d}, d)
 	rt.Assert("no error", err == nil)
